@@ -109,7 +109,7 @@ class MDCPDPGenerator(Generator):
         capacity = torch.randint(
             self.min_capacity,
             self.max_capacity + 1,
-            size=(*batch_size, 1),
+            size=(*batch_size, self.num_depot),
         )
 
         # Sample lateness weight
